@@ -6,7 +6,9 @@ from vlib.schema import D
 
 PROP = 'C17'
 VARIANTS = ['asan', 'msan', 'plain']
-DECLS = [D('i', 'int', default=-1), D('include', 'func', cbs='I')]
+INNER = [D('i', 'int', default=-1), D('include', 'func', cbs='I')]
+DECLS = [D('i', 'int', default=-1), D('include', 'func', cbs='I'),
+         D('one', 'sec', 0, sub=INNER + [D('deep', 'sec', 0, sub=INNER)]), D('multi', 'sec', core.F_MULTI, sub=INNER)]
 HOME = pwd.getpwuid(os.geteuid()).pw_dir
 USERS = [p.pw_name for p in pwd.getpwall() if p.pw_name.isalnum() and not p.pw_name.isdigit()][:3] or ['root']
 
@@ -142,6 +144,11 @@ def script(spec):
             L += ['init 1 %d 0' % sid]
             L += ['add_searchpath 1 %s' % hx(d) for d in spec['dirs']]
             L += ['parse_buf 1 %s' % hx('include("%s")\n' % nm), 'get 1 int %s 0' % hx('i'), 'free 1']
+            # the same include from inside sections: one made by cfg_init (before the search path existed), one nested below it, one multi
+            for wrap, path in (('one { include("%s") }\n', 'one|i'), ('one { deep { include("%s") } }\n', 'one|deep|i'), ('multi { include("%s") }\n', 'multi|i')):
+                L += ['init 1 %d 0' % sid]
+                L += ['add_searchpath 1 %s' % hx(d) for d in spec['dirs']]
+                L += ['parse_buf 1 %s' % hx(wrap % nm), 'get 1 int %s 0' % hx(path), 'free 1']
     return '\n'.join(L)
 
 
